@@ -104,8 +104,12 @@ func (c *Ctx) Incomplete(why string) {
 	c.incomplete = append(c.incomplete, why)
 }
 
-func (c *Ctx) Rule(r string)      { c.mu.Lock(); c.rule = r; c.mu.Unlock() }
-func (c *Ctx) Assume(a ...string) { c.mu.Lock(); c.assumptions = append(c.assumptions, a...); c.mu.Unlock() }
+func (c *Ctx) Rule(r string) { c.mu.Lock(); c.rule = r; c.mu.Unlock() }
+func (c *Ctx) Assume(a ...string) {
+	c.mu.Lock()
+	c.assumptions = append(c.assumptions, a...)
+	c.mu.Unlock()
+}
 func (c *Ctx) Set(k string, v any) {
 	c.mu.Lock()
 	c.extra[k] = v
@@ -302,6 +306,9 @@ func (c *Ctx) finish(evidencePath string) int {
 	wall := time.Since(c.Start).Seconds()
 	unknown := 0
 	replayDir := filepath.Join(VerifDir, "replays", c.ID)
+	if c.Replay == nil {
+		os.RemoveAll(replayDir)
+	}
 	n := 0
 	for _, sig := range c.violOrder {
 		v := c.viol[sig]
